@@ -201,8 +201,11 @@ def rule_r4(p, res):
     r.check("x = np.transpose(points[trilist], axes=[1, 2, 0])" in s and "return (x[0], x[1] - x[0], x[2] - x[0])" in s, bv, bv.node, "triangle frame = (first vertex, edge to second, edge to third)")
     cf = p.func("menpo.transform.piecewiseaffine.base.containment_from_alpha_beta")
     r.instance(cf)
-    s = norm(cf.node)
-    r.check("np.logical_and(np.logical_and(alpha >= 0, beta >= 0), alpha + beta <= 1)" in s, cf, cf.node, "a point is inside a triangle iff alpha, beta >= 0 and alpha + beta <= 1 (edges included)")
+    # which comparison spelling is used is C09's business (it decides what NaN does to the error mask); here only the region matters
+    cmp_ = sorted(str(norm(x)) for x in ast.walk(cf.node) if isinstance(x, ast.Compare))
+    pos = ["alpha + beta <= 1", "alpha >= 0", "beta >= 0"]
+    neg = ["alpha + beta > 1", "alpha < 0", "beta < 0"]
+    r.check(cmp_ in (pos, neg), cf, cf.node, "a point is inside a triangle iff alpha, beta >= 0 and alpha + beta <= 1, edges included (found comparisons %s)" % cmp_, {"containment_comparisons": cmp_})
     ab = p.func("menpo.transform.piecewiseaffine.base.alpha_beta")
     r.instance(ab)
     s = norm(ab.node)
